@@ -105,10 +105,12 @@ theorem optLoop_noFuel (msg : Bytes) (e : Nat) : ∀ (fuel off : Nat), msg.lengt
           have b2 := u16At_bound h2
           split
           · intro hf; cases hf
-          · have := ih (off2 + l) (by omega)
-            split
-            · exact noFuel_ok _
-            · rename_i e3 he; exact this.of_error he
+          · split
+            · intro hf; cases hf
+            · have := ih (off2 + l) (by omega)
+              split
+              · exact noFuel_ok _
+              · rename_i e3 he; exact this.of_error he
     · exact noFuel_ok _
 
 theorem svcbPass1_noFuel (msg : Bytes) (e : Nat) : ∀ (fuel off : Nat) (prev : Option Nat),
